@@ -25,6 +25,7 @@ CONSTANTS
   AllowNested = FALSE
   OthersCall = "never"
   KeepPagesWritable = FALSE
+  TrampFlushed = TRUE
   MaxLives = 1
   MaxInstalls = 2
   MaxCtr = 2
